@@ -33,10 +33,11 @@ type c26Case struct {
 	Ref bool `json:"ref,omitempty"`
 }
 
-var zeroLenDiff = regexp.MustCompile(`^(Will)?Props\.[A-Za-z]+: (""|) != <absent>$`)
+var zeroLenDiff = regexp.MustCompile(`^(Will)?Props\.([A-Za-z]+: (""|)|MessageExpiry: 0) != <absent>$`)
 
-// zeroLengthOnly: every difference is a string / binary property that the sender included with length 0 and that
-// came back absent.
+// zeroLengthOnly: every difference is a property that the sender included with the value Go's zero value stands for
+// (a string / binary property of length 0, a Message Expiry Interval of 0 - the other integer properties have presence
+// flags or a specified default of 0) and that came back absent.
 func zeroLengthOnly(d string) bool {
 	if d == "" {
 		return false
